@@ -29,7 +29,9 @@ package utils
 
 //@ func ReadNBytes
 //@ requires rd != nil && n >= 0 && 0 <= rd.spos && rd.spos <= rd.sn
-//@ modifies rd.spos, rd.sfault
+//@ modifies rd.spos, rd.sfault, allocated
+// memory (C05): what is allocated is bounded by a linear function of what was actually read
+//@ ensures [P:C05] allocated - old(allocated) <= 6 * (rd.spos - old(rd.spos)) + 12288
 //@ ensures [P:C09] rd.sfault == nil ==> (result1 == nil <==> old(rd.sn) - old(rd.spos) >= n)
 //@ ensures [P:C09] result1 == nil ==> (fresh(result0) && len(result0) == n && rd.spos == old(rd.spos) + n)
 //@ ensures [P:C09] result1 == nil ==> forall i int :: 0 <= i && i < n ==> result0[i] == rd.sdata[old(rd.spos) + i]
@@ -41,7 +43,7 @@ package utils
 //@ ensures [H] result1 != nil && rd.sfault == nil ==> (result1 == io.EOF && rd.spos == rd.sn)
 //@ ensures [H] old(rd.sgreedy) && old(rd.sfault) == nil ==> rd.sfault == nil
 //@ loop 0 invariant old(rd.sgreedy) && old(rd.sfault) == nil ==> rd.sfault == nil
-//@ loop 0 invariant fresh(b) && len(b) == n && 0 <= num && num <= n
+//@ loop 0 invariant fresh(b) && 0 <= num && num <= len(b) && len(b) <= n && (len(b) == n || len(b) >= 4096) && (n > 0 ==> len(b) > 0)
 //@ loop 0 invariant rd.spos == old(rd.spos) + num && rd.spos <= rd.sn
 //@ loop 0 invariant forall i int :: 0 <= i && i < num ==> b[i] == rd.sdata[old(rd.spos) + i]
 //@ loop 0 invariant err == nil ==> rd.sfault == old(rd.sfault)
@@ -50,6 +52,8 @@ package utils
 //@ loop 0 invariant err != nil && err != io.EOF ==> (rd.sfault == err && (old(rd.sfault) != nil ==> err == old(rd.sfault) && num == 0))
 //@ loop 0 invariant rd.sfault == nil ==> old(rd.sfault) == nil
 //@ loop 0 invariant err == nil || err == io.EOF || int(err) > 1000
+//@ loop 0 invariant allocated - old(allocated) <= 2 * len(b) + (len(b) == n ? n : 0) && (len(b) <= 4096 || len(b) <= 2 * num)
+//@ loop 0 decreases (err == nil ? 1 : 0) + n - num
 
 //@ func ReadByte
 //@ requires rd != nil && 0 <= rd.spos && rd.spos <= rd.sn
